@@ -592,24 +592,25 @@ Proof.
 Qed.
 
 Lemma esc_char_shape : forall c, 0 <= c ->
-  exists h t, esc_char c = h :: t /\ h <> 34 /\ forallb (fun x => negb (x =? 10)) (esc_char c) = true.
+  exists h t, esc_char c = h :: t /\ h <> 34 /\ forallb (fun x => negb (x =? 10) && negb (x =? 13)) (esc_char c) = true.
 Proof.
   intros c H0. esc_cases c; try (eexists _, _; split; [reflexivity|split; [lia|reflexivity]]).
   - eexists _, _. split; [reflexivity|]. split; [lia|].
     pose proof (ctrl_in c H0 Ctl) as HI. unfold ctrl_codes in HI. cbn [In] in HI.
     repeat (destruct HI as [<-|HI]; [reflexivity|]). contradiction.
   - eexists _, _. split; [reflexivity|]. split; [assumption|].
-    cbn [forallb]. apply Z.eqb_neq in N10. rewrite N10. reflexivity.
+    cbn [forallb]. apply Z.eqb_neq in N10, N13. rewrite N10, N13. reflexivity.
 Qed.
 
-Lemma c_splice_no_newline : forall s, forallb (fun x => negb (x =? 10)) s = true -> c_splice s = s.
+Lemma c_splice_no_newline : forall s, forallb (fun x => negb (x =? 10) && negb (x =? 13)) s = true -> c_splice s = s.
 Proof.
   induction s as [|c s IH]; intro H; [reflexivity|].
   cbn [forallb] in H. apply andb_true_iff in H. destruct H as [Hc Hs].
   cbn [c_splice]. destruct (c =? 92).
   - destruct s as [|d s1]; [reflexivity|].
     pose proof Hs as Hs'. cbn [forallb] in Hs'. apply andb_true_iff in Hs'. destruct Hs' as [Hd _].
-    apply negb_true_iff in Hd. rewrite Hd. rewrite IH by assumption. reflexivity.
+    apply andb_true_iff in Hd. destruct Hd as [Hd1 Hd2].
+    apply negb_true_iff in Hd1, Hd2. rewrite Hd1, Hd2. rewrite IH by assumption. reflexivity.
   - rewrite IH by assumption. reflexivity.
 Qed.
 
@@ -642,7 +643,7 @@ Proof.
 Qed.
 
 Lemma fixed_no_newline : forall s, Forall (fun c => 0 <= c) s ->
-  forallb (fun x => negb (x =? 10)) (flat_map esc_char s ++ [34]) = true.
+  forallb (fun x => negb (x =? 10) && negb (x =? 13)) (flat_map esc_char s ++ [34]) = true.
 Proof.
   induction s as [|c s IH]; intro HF; [reflexivity|]. inversion HF; subst.
   cbn [flat_map]. rewrite <- app_assoc, forallb_app, IH by assumption.
